@@ -1063,14 +1063,6 @@ def stateresolution_conflictedEventSorter_Len : List String := [
   "return len(s)"
 ]
 
-def stateresolution_conflictedEventSorter_Less : List String := [
-  "func func(i, j int) bool",
-  "if s[i].depth == s[j].depth {",
-  "return bytes.Compare(s[i].eventIDSHA1[:], s[j].eventIDSHA1[:]) > 0",
-  "}",
-  "return s[i].depth < s[j].depth"
-]
-
 def stateresolution_conflictedEventSorter_Swap : List String := [
   "func func(i, j int)",
   "s[i], s[j] = s[j], s[i]"
@@ -1990,6 +1982,6 @@ def stateresolutionv2heaps_type_stateResV2ConflictedPowerLevelHeap : List String
   "type stateResV2ConflictedPowerLevelHeap []*stateResV2ConflictedPowerLevel"
 ]
 
-def functions : List String := ["eventauth.go:AuthEvents.AddEvent", "eventauth.go:AuthEvents.Clear", "eventauth.go:AuthEvents.Create", "eventauth.go:AuthEvents.JoinRules", "eventauth.go:AuthEvents.Member", "eventauth.go:AuthEvents.PowerLevels", "eventauth.go:AuthEvents.ThirdPartyInvite", "eventauth.go:AuthEvents.Valid", "eventauth.go:NotAllowed.Error", "eventauth.go:StateNeeded.AuthEventReferences", "eventauth.go:StateNeeded.Tuples", "eventauth.go:.Allowed", "eventauth.go:.NewAuthEvents", "eventauth.go:.StateNeededForAuth", "eventauth.go:.StateNeededForProtoEvent", "eventauth.go:.accumulateStateNeeded", "eventauth.go:.allowRestrictedJoins", "eventauth.go:.checkEventLevels", "eventauth.go:.checkKnocking", "eventauth.go:.checkNotificationLevels", "eventauth.go:.checkPowerLevelEventV1", "eventauth.go:.checkPowerLevelEventV2", "eventauth.go:.checkPowerLevelEventV3", "eventauth.go:.checkUserLevels", "eventauth.go:.disallowKnocking", "eventauth.go:.disallowRestrictedJoins", "eventauth.go:.errorf", "eventauth.go:.newAllowerContext", "eventauth.go:.thirdPartyInviteToken", "eventauth.go:allowerContext.aliasEventAllowed", "eventauth.go:allowerContext.allowed", "eventauth.go:allowerContext.createEventAllowed", "eventauth.go:allowerContext.defaultEventAllowed", "eventauth.go:allowerContext.memberEventAllowed", "eventauth.go:allowerContext.newEventAllower", "eventauth.go:allowerContext.newMembershipAllower", "eventauth.go:allowerContext.powerLevelsEventAllowed", "eventauth.go:allowerContext.redactEventAllowed", "eventauth.go:allowerContext.resetCreate", "eventauth.go:allowerContext.update", "eventauth.go:allowerContext.userPowerLevel", "eventauth.go:eventAllower.commonChecks", "eventauth.go:membershipAllower.membershipAllowed", "eventauth.go:membershipAllower.membershipAllowedFromThirdPartyInvite", "eventauth.go:membershipAllower.membershipAllowedOther", "eventauth.go:membershipAllower.membershipAllowedSelf", "eventauth.go:membershipAllower.membershipAllowedSelfForRestrictedJoin", "eventauth.go:membershipAllower.membershipFailed", "eventauth.go:type AuthEventProvider", "eventauth.go:type AuthEvents", "eventauth.go:type NotAllowed", "eventauth.go:type StateNeeded", "eventauth.go:type allowerContext", "eventauth.go:type eventAllower", "eventauth.go:type membershipAllower", "eventauth.go:type membershipContent", "stateresolution.go:.ResolveConflicts", "stateresolution.go:.ResolveConflictsNew", "stateresolution.go:.ResolveStateConflicts", "stateresolution.go:.sortConflictedEventsByDepthAndSHA1", "stateresolution.go:.splitConflictedUnconflicted", "stateresolution.go:conflictedEventSorter.Len", "stateresolution.go:conflictedEventSorter.Less", "stateresolution.go:conflictedEventSorter.Swap", "stateresolution.go:stateResolver.Create", "stateresolution.go:stateResolver.JoinRules", "stateresolution.go:stateResolver.Member", "stateresolution.go:stateResolver.PowerLevels", "stateresolution.go:stateResolver.ThirdPartyInvite", "stateresolution.go:stateResolver.Valid", "stateresolution.go:stateResolver.addAuthEvent", "stateresolution.go:stateResolver.addConflicted", "stateresolution.go:stateResolver.authEventAt", "stateresolution.go:stateResolver.removeAuthEvent", "stateresolution.go:stateResolver.resolveAndAddAuthBlocks", "stateresolution.go:stateResolver.resolveAuthBlock", "stateresolution.go:stateResolver.resolveNormalBlock", "stateresolution.go:type conflictedEvent", "stateresolution.go:type conflictedEventSorter", "stateresolution.go:type stateResolver", "stateresolutionv2.go:.HeaderedReverseTopologicalOrdering", "stateresolutionv2.go:.ResolveStateConflictsV2", "stateresolutionv2.go:.ResolveStateConflictsV2New", "stateresolutionv2.go:.ReverseTopologicalOrdering", "stateresolutionv2.go:.creatorsFromCreateEventOrNone", "stateresolutionv2.go:.eventMapFromEvents", "stateresolutionv2.go:.getCreateEvent", "stateresolutionv2.go:.isControlEvent", "stateresolutionv2.go:.kahnsAlgorithmUsingAuthEvents", "stateresolutionv2.go:.kahnsAlgorithmUsingPrevEvents", "stateresolutionv2.go:.newPDUSet", "stateresolutionv2.go:stateResolverV2.applyEvents", "stateresolutionv2.go:stateResolverV2.authAndApplyEvents", "stateresolutionv2.go:stateResolverV2.calculateAuthDifference", "stateresolutionv2.go:stateResolverV2.calculateAuthDifferenceNew", "stateresolutionv2.go:stateResolverV2.calculateFullAuthChainAndConflictedSubgraph", "stateresolutionv2.go:stateResolverV2.createPowerLevelMainline", "stateresolutionv2.go:stateResolverV2.getFirstPowerLevelMainlineEvent", "stateresolutionv2.go:stateResolverV2.getPowerLevelFromAuthEvents", "stateresolutionv2.go:stateResolverV2.mainlineOrdering", "stateresolutionv2.go:stateResolverV2.reverseTopologicalOrdering", "stateresolutionv2.go:stateResolverV2.wrapOtherEventsForSort", "stateresolutionv2.go:stateResolverV2.wrapPowerLevelEventsForSort", "stateresolutionv2.go:type IsRejected", "stateresolutionv2.go:type TopologicalOrder", "stateresolutionv2.go:type stateResolverV2", "stateresolutionv2heaps.go:stateResV2ConflictedOtherHeap.Pop", "stateresolutionv2heaps.go:stateResV2ConflictedOtherHeap.Push", "stateresolutionv2heaps.go:stateResV2ConflictedPowerLevelHeap.Pop", "stateresolutionv2heaps.go:stateResV2ConflictedPowerLevelHeap.Push", "stateresolutionv2heaps.go:type stateResV2ConflictedOther", "stateresolutionv2heaps.go:type stateResV2ConflictedOtherHeap", "stateresolutionv2heaps.go:type stateResV2ConflictedPowerLevel", "stateresolutionv2heaps.go:type stateResV2ConflictedPowerLevelHeap"]
+def functions : List String := ["eventauth.go:AuthEvents.AddEvent", "eventauth.go:AuthEvents.Clear", "eventauth.go:AuthEvents.Create", "eventauth.go:AuthEvents.JoinRules", "eventauth.go:AuthEvents.Member", "eventauth.go:AuthEvents.PowerLevels", "eventauth.go:AuthEvents.ThirdPartyInvite", "eventauth.go:AuthEvents.Valid", "eventauth.go:NotAllowed.Error", "eventauth.go:StateNeeded.AuthEventReferences", "eventauth.go:StateNeeded.Tuples", "eventauth.go:.Allowed", "eventauth.go:.NewAuthEvents", "eventauth.go:.StateNeededForAuth", "eventauth.go:.StateNeededForProtoEvent", "eventauth.go:.accumulateStateNeeded", "eventauth.go:.allowRestrictedJoins", "eventauth.go:.checkEventLevels", "eventauth.go:.checkKnocking", "eventauth.go:.checkNotificationLevels", "eventauth.go:.checkPowerLevelEventV1", "eventauth.go:.checkPowerLevelEventV2", "eventauth.go:.checkPowerLevelEventV3", "eventauth.go:.checkUserLevels", "eventauth.go:.disallowKnocking", "eventauth.go:.disallowRestrictedJoins", "eventauth.go:.errorf", "eventauth.go:.newAllowerContext", "eventauth.go:.thirdPartyInviteToken", "eventauth.go:allowerContext.aliasEventAllowed", "eventauth.go:allowerContext.allowed", "eventauth.go:allowerContext.createEventAllowed", "eventauth.go:allowerContext.defaultEventAllowed", "eventauth.go:allowerContext.memberEventAllowed", "eventauth.go:allowerContext.newEventAllower", "eventauth.go:allowerContext.newMembershipAllower", "eventauth.go:allowerContext.powerLevelsEventAllowed", "eventauth.go:allowerContext.redactEventAllowed", "eventauth.go:allowerContext.resetCreate", "eventauth.go:allowerContext.update", "eventauth.go:allowerContext.userPowerLevel", "eventauth.go:eventAllower.commonChecks", "eventauth.go:membershipAllower.membershipAllowed", "eventauth.go:membershipAllower.membershipAllowedFromThirdPartyInvite", "eventauth.go:membershipAllower.membershipAllowedOther", "eventauth.go:membershipAllower.membershipAllowedSelf", "eventauth.go:membershipAllower.membershipAllowedSelfForRestrictedJoin", "eventauth.go:membershipAllower.membershipFailed", "eventauth.go:type AuthEventProvider", "eventauth.go:type AuthEvents", "eventauth.go:type NotAllowed", "eventauth.go:type StateNeeded", "eventauth.go:type allowerContext", "eventauth.go:type eventAllower", "eventauth.go:type membershipAllower", "eventauth.go:type membershipContent", "stateresolution.go:.ResolveConflicts", "stateresolution.go:.ResolveConflictsNew", "stateresolution.go:.ResolveStateConflicts", "stateresolution.go:.sortConflictedEventsByDepthAndSHA1", "stateresolution.go:.splitConflictedUnconflicted", "stateresolution.go:conflictedEventSorter.Len", "stateresolution.go:conflictedEventSorter.Swap", "stateresolution.go:stateResolver.Create", "stateresolution.go:stateResolver.JoinRules", "stateresolution.go:stateResolver.Member", "stateresolution.go:stateResolver.PowerLevels", "stateresolution.go:stateResolver.ThirdPartyInvite", "stateresolution.go:stateResolver.Valid", "stateresolution.go:stateResolver.addAuthEvent", "stateresolution.go:stateResolver.addConflicted", "stateresolution.go:stateResolver.authEventAt", "stateresolution.go:stateResolver.removeAuthEvent", "stateresolution.go:stateResolver.resolveAndAddAuthBlocks", "stateresolution.go:stateResolver.resolveAuthBlock", "stateresolution.go:stateResolver.resolveNormalBlock", "stateresolution.go:type conflictedEvent", "stateresolution.go:type conflictedEventSorter", "stateresolution.go:type stateResolver", "stateresolutionv2.go:.HeaderedReverseTopologicalOrdering", "stateresolutionv2.go:.ResolveStateConflictsV2", "stateresolutionv2.go:.ResolveStateConflictsV2New", "stateresolutionv2.go:.ReverseTopologicalOrdering", "stateresolutionv2.go:.creatorsFromCreateEventOrNone", "stateresolutionv2.go:.eventMapFromEvents", "stateresolutionv2.go:.getCreateEvent", "stateresolutionv2.go:.isControlEvent", "stateresolutionv2.go:.kahnsAlgorithmUsingAuthEvents", "stateresolutionv2.go:.kahnsAlgorithmUsingPrevEvents", "stateresolutionv2.go:.newPDUSet", "stateresolutionv2.go:stateResolverV2.applyEvents", "stateresolutionv2.go:stateResolverV2.authAndApplyEvents", "stateresolutionv2.go:stateResolverV2.calculateAuthDifference", "stateresolutionv2.go:stateResolverV2.calculateAuthDifferenceNew", "stateresolutionv2.go:stateResolverV2.calculateFullAuthChainAndConflictedSubgraph", "stateresolutionv2.go:stateResolverV2.createPowerLevelMainline", "stateresolutionv2.go:stateResolverV2.getFirstPowerLevelMainlineEvent", "stateresolutionv2.go:stateResolverV2.getPowerLevelFromAuthEvents", "stateresolutionv2.go:stateResolverV2.mainlineOrdering", "stateresolutionv2.go:stateResolverV2.reverseTopologicalOrdering", "stateresolutionv2.go:stateResolverV2.wrapOtherEventsForSort", "stateresolutionv2.go:stateResolverV2.wrapPowerLevelEventsForSort", "stateresolutionv2.go:type IsRejected", "stateresolutionv2.go:type TopologicalOrder", "stateresolutionv2.go:type stateResolverV2", "stateresolutionv2heaps.go:stateResV2ConflictedOtherHeap.Pop", "stateresolutionv2heaps.go:stateResV2ConflictedOtherHeap.Push", "stateresolutionv2heaps.go:stateResV2ConflictedPowerLevelHeap.Pop", "stateresolutionv2heaps.go:stateResV2ConflictedPowerLevelHeap.Push", "stateresolutionv2heaps.go:type stateResV2ConflictedOther", "stateresolutionv2heaps.go:type stateResV2ConflictedOtherHeap", "stateresolutionv2heaps.go:type stateResV2ConflictedPowerLevel", "stateresolutionv2heaps.go:type stateResV2ConflictedPowerLevelHeap"]
 
 end VPins.C10
